@@ -131,7 +131,7 @@ def exc_signature(e):
 def element_cases(ctx):
     from generatorpipeline import pipeline
     rng = ctx.rng
-    kwsets = [{}, {'a': 1}, {'scale': 2.5, 'name': 'x'}, {'arr': None}]
+    kwsets = [{}, {'a': 1}, {'scale': 2.5, 'name': 'x'}, {'arr': None}, {'verbose': 7}, {'skipNone': False, 'nworkers': 3}, {'extracache': 1, 'func': 'f'}]
     lines, metas = [], []
     for name, arg in arg_zoo():
         for rep in range(ctx.scale(2, 6)):
@@ -272,6 +272,26 @@ def signature_cases(ctx):
             ctx.fail('element-call-not-transparent', 'decorated(x, **%r) on a %s callable gave %s, undecorated %s' % (kw, which, r['one'], r['want'][0]), case)
 
 
+def startmethod_kwargs_cases(ctx):
+    """keyword arguments reach every per-element call also when the workers are not forked (forkserver, spawn): they travel with the task"""
+    rng = ctx.rng
+    for method in ('forkserver', 'spawn'):
+        nw, n = rng.choice([1, 2]), rng.choice([2, 4])
+        kw = rng.choice([{'a': 1}, {'scale': 2.5, 'name': 'x'}, {'verbose': 3}])
+        case = dict(start_method=method, nworkers=nw, n=n, kwargs={k: repr(v) for k, v in kw.items()})
+        ctx.case(('startmethod-kwargs', method, nw, n, sorted(kw)), True, sample=case)
+        ctx.count('start_method:' + method)
+        st, r = pipelib.isolated(pipelib.startmethod_probe, (method, nw, 1, kw, n), timeout=60)
+        if st == 'timeout':
+            st, r = pipelib.isolated(pipelib.startmethod_probe, (method, nw, 1, kw, n), timeout=60)
+        if st != 'ok':
+            ctx.fail('startmethod-stream-fails', 'a stream with keyword arguments under start method %s: %s %s' % (method, st, str(r)[-300:]), case)
+            continue
+        want = [('sm', i, tuple(sorted(kw.items()))) for i in range(n)]
+        if r['outputs'] != want:
+            ctx.fail('kwargs-not-forwarded', 'under start method %s the per-element calls saw %s, expected %s' % (method, r['outputs'][:4], want[:4]), case)
+
+
 def kwargs_streams(ctx):
     rng = ctx.rng
     cases = []
@@ -363,6 +383,7 @@ def check(ctx):
     kwargs_streams(ctx)
     interleaved_cases(ctx)
     signature_cases(ctx)
+    startmethod_kwargs_cases(ctx)
 
 
 def replay(ctx, data):
@@ -371,6 +392,8 @@ def replay(ctx, data):
         interleaved_cases(ctx)
     elif 'signature' in case:
         signature_cases(ctx)
+    elif 'start_method' in case:
+        startmethod_kwargs_cases(ctx)
     elif 'arg_kind' in case:
         element_cases(ctx)
     else:
